@@ -177,6 +177,70 @@ def check_program(T, comps, pos2, order, acc, only=None):
     return found
 
 
+# ----------------------------------------------------------------------------------------
+# literal values whose repr() is not a Python literal that evaluates back to them (the generated checking code must
+# not depend on that): enum members, infinities, strings full of quotes; probed with the value itself and with
+# clearly different values only (never with equal values of another type)
+
+
+def exotic_cases():
+    import enum
+
+    class Colour(enum.IntEnum):
+        RED = 1
+        BLUE = 2
+
+    class Mode(enum.Enum):
+        ON = "on"
+        OFF = "off"
+
+    inf = float("inf")
+    vals = [("IntEnum member", Colour.RED, [Colour.BLUE, 7, "x"]), ("Enum member", Mode.ON, [Mode.OFF, "x", 3]),
+            ("inf", inf, [1.5, -inf, "x"]), ("-inf", -inf, [inf, 0.5, "x"]), ("quotes", "it's \"q\"\n\\", ["it's", "x", 3]),
+            ("negative", -3, [3, "x", 2.5]), ("large", 10 ** 30, [10 ** 29, "x", 1]), ("unicode", "\u00e9\u4e2d", ["e", 3, "x"]),
+            ("bytes", b"ab", [b"a", "ab", 3]), ("None", None, [0, "", False])]
+    for name, v, others in vals:
+        for j in (0, 1, 3, 5):
+            yield name, v, others, j
+
+
+def run_exotic(name, v, others, j, acc):
+    import typing
+
+    from ovld import Ovld
+
+    log = []
+    ov = Ovld()
+
+    def mk(i, ann):
+        def m(x):
+            log.append(i)
+        m.__annotations__ = {"x": ann}
+        m.__name__ = m.__qualname__ = f"m{i}"
+        return m
+
+    found = []
+    try:
+        ov.register(mk(0, typing.Literal[v]))
+        for i in range(j):
+            ov.register(mk(i + 1, typing.Literal[1000 + i]))
+        ov.register(mk(99, object), priority=-1)
+        for probe, want in [(v, [0])] + [(o, [99]) for o in others] + [(1000 + i, [i + 1]) for i in range(j)]:
+            del log[:]
+            ov(probe)
+            if acc is not None:
+                acc.count("evaluations")
+                acc.count("nontrivial")
+            if log != want:
+                found.append(("exotic-literal:wrong-method", {"value": name, "companions": j, "probe": repr(probe)[:40], "expected": want, "got": list(log)}))
+    except Exception as e:  # noqa
+        found.append(("exotic-literal:" + type(e).__name__, {"value": name, "companions": j, "exc": core.short_exc(e)[:160]}))
+    if acc is not None:
+        for disc, detail in found[:1]:
+            acc.violation({"exotic": name, "companions": j}, disc, detail)
+    return found
+
+
 def strategies(acc):
     for k, v in list(linecache.cache.items()):
         if k.startswith("<ovld:") and v[2] and "__DEPENDENT_DISPATCH__" in v[2][0]:
@@ -199,10 +263,18 @@ def shard(shard, nshards, tier, seed):
             gen.purge_globals()
     strategies(acc)
     gen.purge_globals()
+    for idx, (name, v, others, j) in enumerate(exotic_cases()):
+        if idx % nshards == shard:
+            run_exotic(name, v, others, j, acc)
     return acc
 
 
 def replay(case):
+    if "exotic" in case:
+        for name, v, others, j in exotic_cases():
+            if name == case["exotic"] and j == case["companions"]:
+                return run_exotic(name, v, others, j, None)
+        return []
     order = tuple(case["order"]) if case.get("order") else None
     return check_program(case["type"], case["companions"], case["pos2"], order, None, only=[case["value"], case.get("second", 5 if case["pos2"] else None)])
 
